@@ -13,6 +13,17 @@ import (
 
 func Parse(in string) (sections []*Section, err error) {
 	errorListener := NewConsoleErrorListener()
+	// Never let a malformed parse tree crash the caller (the parser also runs inside the daemon on reload).
+	defer func() {
+		if r := recover(); r != nil {
+			sections = nil
+			if errorListener.ErrorBuilder.Len() != 0 {
+				err = fmt.Errorf("%v", errorListener.ErrorBuilder.String())
+			} else {
+				err = fmt.Errorf("malformed configuration: %v", r)
+			}
+		}
+	}()
 	lexer := dae_config.Newdae_configLexer(antlr.NewInputStream(in))
 	lexer.RemoveErrorListeners()
 	lexer.AddErrorListener(errorListener)
@@ -23,6 +34,11 @@ func Parse(in string) (sections []*Section, err error) {
 	parser.AddErrorListener(errorListener)
 	parser.BuildParseTrees = true
 	tree := parser.Start()
+	if errorListener.ErrorBuilder.Len() != 0 {
+		// Syntax error: the tree was repaired by error recovery and does not have the shape the walker
+		// relies on (positional children, concrete node types). Report the error without walking it.
+		return nil, fmt.Errorf("%v", errorListener.ErrorBuilder.String())
+	}
 
 	walker := NewWalker(parser)
 	antlr.ParseTreeWalkerDefault.Walk(walker, tree)
